@@ -364,6 +364,20 @@ theorem blockAccount_ef (e : Env) (l l' : Ledger) (acc : Nat) (b : Bool) (h : bl
         simp only [hm] at h
         injection h with h; injection h with h1 _; subst h1; exact Or.inl rfl
 
+theorem designateNotary_ef (e : Env) (l l' : Ledger) (ns : List Nat) (w : Bool) (h : designateNotary e l ns w = some l') : EF l l' := by
+  unfold designateNotary at h
+  split at h
+  · simp at h
+  · split at h
+    · simp at h
+    · split at h
+      · simp at h
+      · split at h
+        · simp at h
+        · split at h
+          · simp at h
+          · injection h with h; subst h; exact EF.of_eq rfl rfl rfl rfl rfl
+
 theorem unblockAccount_ef (l : Ledger) (acc : Nat) : EF l (unblockAccount l acc).1 := by
   unfold unblockAccount
   split
@@ -738,6 +752,13 @@ theorem exec_pres {nt : Nat} (s : St) (op : Op) (hm : MInv nt s) (hop : op.inner
     · split
       · exact ⟨h.2, h.2⟩
       · exact pres_done P hP s _ _ h (unblockAccount_frame _ _) (unblockAccount_ef _ _)
+  | designate nodes caller =>
+    simp only [exec]
+    split
+    · exact h
+    · cases hs : designateNotary s.env s.cur nodes (witCommittee s.env s.cur caller s.env.desigC) with
+      | none => exact ⟨h.2, h.2⟩
+      | some l => exact pres_done P hP s l .null h (designateNotary_frame _ _ _ _ _ hs) (designateNotary_ef _ _ _ _ _ hs)
 
 theorem step_pres {nt : Nat} (s : St) (op : Op) (hm : MInv nt s) (hop : op.inner = true) (h : P s.cur ∧ P s.snap) :
     P (step s op).cur ∧ P (step s op).snap := by
